@@ -481,7 +481,8 @@ class WalletSim:
         """Amount specs are resolved against the MODEL at execution time:
         ['abs', n] | ['frac', f] of the available effective total | ['total', d] / ['subset', [f..], d] /
         ['single', f, d]: the output that carries it makes the build's deficit equal to (effective sum of
-        all / a subset / one available output) + d."""
+        all / a subset / one available output) + d; ['deficit', n]: deficit exactly n; ['pre', d]: deficit =
+        effective sum of the build's own pre-chosen inputs + d."""
         avail = self.available(funding, exclude={u.op for u in pre})
         effs = [self.effective(u) for u in avail]
         total = sum(e for e in effs if e > 0)
@@ -506,6 +507,10 @@ class WalletSim:
                 goal = sum(effs[j] for j in picks) + int(a[2])
             elif a[0] == 'single' and avail:
                 goal = effs[min(len(avail) - 1, int(float(a[1]) * len(avail)))] + int(a[2])
+            elif a[0] == 'deficit':            # the build falls exactly this many dewies short of its cost
+                goal = int(a[1])
+            elif a[0] == 'pre':                # ... short by what its own pre-chosen inputs are worth, + d
+                goal = sum(self.effective(u) for u in pre) + int(a[1])
             else:
                 goal = 1000
             outputs, name_fees = self.make_outputs(specs, amounts)
@@ -535,7 +540,10 @@ class WalletSim:
         b.change = int(spec.get('change', b.funding[0])) % self.n_accounts
         b.pre = self.pick_pre(spec, set(b.funding))
         if b.pre:
-            await self.db.reserve_outputs([u.txo for u in b.pre])    # what Ledger.reserve_outputs does
+            # Account.fund(everything) reserves what it hands in; jsonrpc_txo_spend hands in plain,
+            # unreserved outputs of the funding account (`pre_unreserved`)
+            if not spec.get('pre_unreserved'):
+                await self.db.reserve_outputs([u.txo for u in b.pre])    # what Ledger.reserve_outputs does
             for u in b.pre:
                 u.held_by = b.bid
                 b.touched.add(u.op)
